@@ -57,7 +57,7 @@ def gen_scenario(rng, feat, mode, ntasks=1, flags=None, big=False):
         steps = []
         for _ in range(n):
             c = rng.weighted([("a", 10), ("y", 3), ("s", 4 if spawn and depth < 3 and len(bodies) < (8 if big else 5) else 0),
-                              ("f", 3 if flags else 0), ("w", 3 if flags else 0), ("j", 2 if flags else 0), ("c", 1)])
+                              ("f", 3 if flags else 0), ("w", 3 if flags else 0), ("j", 2 if flags else 0), ("c", 1), ("g", 1)])
             if c == "a":
                 # rarely re-use an operation id / name one that does not exist: the driver skips such awaits
                 steps.append("a%d" % (rng.below(len(ops) + 2) if (ops and rng.chance(1, 25)) else new_op()))
@@ -76,6 +76,8 @@ def gen_scenario(rng, feat, mode, ntasks=1, flags=None, big=False):
                 steps.append("w%d" % rng.below(nflags))
             elif c == "j":
                 steps.append("j%d.%d" % (new_op(), rng.below(nflags)))
+            elif c == "g":
+                steps.append("g%d" % new_op())
             else:
                 steps.append("c")
         bodies[bid] = steps
@@ -207,3 +209,92 @@ def agree(real_out, model_out):
 def model_panic(model_out):
     m = model_out.rsplit(" ", 1)[-1]
     return int(m[6:]) if m.startswith("PANIC:") else None
+
+
+# ---------------------------------------------------------------------------------------------- check helpers
+def _newest_mtime(paths):
+    m = 0
+    for p in paths:
+        if os.path.isdir(p):
+            for d, _, fs in os.walk(p):
+                if "/target" in d:
+                    continue
+                for f in fs:
+                    try:
+                        m = max(m, os.path.getmtime(os.path.join(d, f)))
+                    except OSError:
+                        pass
+        elif os.path.exists(p):
+            m = max(m, os.path.getmtime(p))
+    return m
+
+
+def build_real_cached(feat, bin="tasks"):
+    """rtmock.build, skipped when the feature-tagged executable is newer than every source it depends on
+    (wit-bindgen's guest-rust crate in vf.REPO, the rtmock crate, this repo's Cargo.lock): the four feature
+    builds share one cargo target dir, so an unconditional rebuild recompiles wit-bindgen four times per run."""
+    import hashlib
+    feats = sorted(FEATS[feat]) if FEATS[feat] else []
+    tag = hashlib.sha256(os.path.realpath(vf.REPO).encode()).hexdigest()[:10]
+    dst = os.path.join(vf.BUILD, "rtmock", tag, bin + "".join("+" + f for f in feats))
+    srcs = [os.path.join(vf.REPO, "crates", "guest-rust"), os.path.join(vf.REPO, "Cargo.lock"), os.path.join(vf.REPO, "Cargo.toml"),
+            os.path.join(vf.HARNESS, "crates", "rtmock"), os.path.join(vf.HARNESS, "Cargo.toml")]
+    if os.path.exists(dst) and os.path.getmtime(dst) > _newest_mtime(srcs):
+        return True, dst, "up to date"
+    return rtmock.build(bin, FEATS[feat])
+
+
+def read_corpus(prop):
+    p = os.path.join(vf.ROOT, "corpus", prop + ".txt")
+    if not os.path.exists(p):
+        return []
+    return [l.strip() for l in open(p) if l.strip() and not l.startswith("#")]
+
+
+def nontrivial(real_out):
+    return ("join:" in real_out) or bool(re.search(r"(cb:\d+:\d+,\d+,\d+|start:\d+)=([1-9]\d*)", real_out))
+
+
+def canon(case):
+    return case
+
+
+def tally(dist, case, real_out):
+    sc = parse_line(case)
+    d = dist.setdefault(FEAT_NAME[sc.feat], {})
+
+    def inc(k, n=1):
+        d[k] = d.get(k, 0) + n
+    inc("scenarios")
+    inc("mode_" + ("start_task" if sc.mode == "S" else "block_on"))
+    if len(sc.roots) > 1:
+        inc("two_tasks")
+    for b in sc.bodies:
+        for s in b:
+            inc("step_" + {"a": "await", "y": "yield", "s": "spawn", "f": "flag_wait", "w": "flag_signal", "j": "join", "c": "ctx_obs", "g": "detach"}[s[0]])
+    for o in sc.ops:
+        inc("op_" + o)
+    for a in sc.actions:
+        inc("act_" + {"s": "start", "n": "none", "e": "event", "x": "cancel", "r": "resolve", "d": "peer_drop", "p": "progress", "w": "xwake", "R": "raw", "z": "cleanup"}[a[0]])
+    for m in re.finditer(r"(?:cb:\d+:(\d+),\d+,\d+|start:\d+)=(\d+)", real_out):
+        code = int(m.group(2))
+        inc("answer_" + ("exit" if code == 0 else "yield" if code == 1 else "wait"))
+        if m.group(1):
+            inc("event_kind_%s" % m.group(1))
+    if "taskcancel" in real_out:
+        inc("cancelled_before_return")
+    if "PANIC:" in real_out:
+        inc("real_panics")
+    if re.search(r"fcancelw:\d+=2 fwrite", real_out):
+        inc("deferred_default_write")
+
+
+def run_real(exe, lines, shards=4):
+    """Few processes (process creation is the dominant cost on a loaded machine); falls back to
+    rtmock.run, which survives aborts, when a shard dies."""
+    if not lines:
+        return []
+    try:
+        return vf.run_filter([exe], lines, shards=min(shards, max(1, len(lines) // 64)) or 1, timeout=900)
+    except RuntimeError:
+        return rtmock.run(exe, lines, timeout=900)
